@@ -150,6 +150,8 @@ def run_group(entry, repo='/repo', tier='quick', seed=0):
             return out
         env = dict(os.environ, CARGO_NET_OFFLINE='true')
         env.pop('RUSTFLAGS', None)
+        if tier == 'thorough':
+            env['RUSTFLAGS'] = '--cfg verif_thorough'
         jobs = str(min(len(hs), int(grp.get('jobs', 8))))
         cmd = ['cargo', 'kani', '-Z', 'function-contracts', '-Z', 'stubbing', '-Z', 'unstable-options', '-j', jobs,
                '--output-format', 'terse']
@@ -192,7 +194,7 @@ def run_group(entry, repo='/repo', tier='quick', seed=0):
                     out['reason'] = ob['detail']
             else:
                 only_unwind = r['failed_checks'] and all('unwinding assertion' in f for f in r['failed_checks'])
-                if only_unwind:
+                if only_unwind and not h.get('unwind_is_obligation'):
                     ob['status'] = 'undecided'
                     ob['detail'] = 'unwinding bound too small: ' + '; '.join(r['failed_checks'][:3])
                     out['status'] = 'inconclusive'
